@@ -101,6 +101,11 @@ func c05Negative(t *rapid.T) C05Case {
 		{"topk needs positive k", "topk(0, " + rng + ")"},
 		{"bottomk needs positive k", "bottomk(-1, " + rng + ")"},
 		{"sum takes no parameter", "sum(2, " + rng + ")"},
+		{"k is a decimal integer", "topk(0x10, " + rng + ")"},
+		{"k is a decimal integer", "bottomk(0b11, " + rng + ")"},
+		{"k is a decimal integer", "topk(1_0, " + rng + ")"},
+		{"k is a decimal integer", "topk(1.5, " + rng + ")"},
+		{"k is a decimal integer", "topk(1e1, " + rng + ")"},
 		{"string literal only with = != =~ !~", sel + ` | a > "x"`},
 		{"string literal only with = != =~ !~", sel + ` | a <= "x"`},
 		{"number literal not with =", sel + ` | a = 5`},
